@@ -474,11 +474,19 @@ def main(argv):
             relevant = [f for f in res['vacuous'] if any(o.startswith(f + '::') for o in obs)]
             if relevant:
                 undecided.append('unit %s: vacuity canary (ensures false) was PROVED for %s: contradictory precondition' % (unit_name, relevant))
+        vanished = [f for f, why in res.get('unverifiable', {}).items() if 'no longer exists' in why]
         for f in cls['failures']:
             name, props = attribute(unit, f)
             if prop not in props and '*' not in props:
                 continue
             full = '%s/%s' % (unit_name, name)
+            if vanished:
+                # a contracted helper disappeared (inlined / renamed): its callers lost the lemma their proof was built on, so a
+                # failed obligation in this unit is "needs contract", not a code defect -- the bounded search arbitrates
+                undecided.append('unit %s: obligation %s failed after %s vanished from the source (lost anchor): arbitrated by the bounded search' % (unit_name, name, vanished))
+                unreached.add(full)
+                obligations.setdefault(full, 'lost anchor')
+                continue
             failed_names.add(full)
             violations.append(dict(obligation=full, message=f['message'], site=f.get('site'), rendered=f.get('rendered', '')))
         if cls['verified'] is not None and cls['verified'] == 0 and not cls['failures']:
